@@ -1,7 +1,8 @@
 (* Ledger/ImportProofs2.v — C07, general form: the rescan of a restored wallet interleaved with a
-   MOVING chain (blocks attached / detached on the node, announcements processed by the handler
-   — extensions and reorganisations, with the cursor pull-back — between rescan batches, batches
-   that read a chain the handler has not been told about yet).
+   MOVING chain (blocks attached / detached on the node — the node may leave a branch and come back
+   to it —, announcements processed by the handler — extensions and reorganisations, with the cursor
+   pull-back — between rescan batches, batches that find the node on a chain the handler has not been
+   told about yet: the repaired asyncImport refuses those, [f_import_tipcheck]).
 
    Part 1  list / chain utilities
    Part 2  algebra of [rollback_credits]; the repaired [xrollback] is [rollback_credits] when the block
@@ -691,9 +692,6 @@ Qed.
 Lemma block_eq_dec : forall a b : block, {a = b} + {a <> b}.
 Proof. decide equality; [apply (list_eq_dec tx_eq_dec)|apply Z.eq_dec|apply N.eq_dec|apply N.eq_dec]. Qed.
 
-Definition brs_ok_upto (c : list block) (j : Z) (brs : list brec) : Prop :=
-  forall br, In br brs -> br_h br <= j -> exists b, In b c /\ b_height b = br_h br /\ b_id b = br_bid br.
-
 Lemma xrollback_repaired_eq : forall st h,
   xrollback repaired st h =
   XOk {| x_w := {| credits := map (fun c => if rb_unspend (x_brecs st) h c then set_spent c None else c)
@@ -764,18 +762,10 @@ Definition top_is (c : list block) (st : xstate) (top : Z) : Prop :=
 Definition clean (c : list block) (top : Z) (st : xstate) : Prop :=
   credits (x_w st) = E p kown (ptxs (upto top c)) /\ brs_ok c (x_brecs st) /\ brs_le top (x_brecs st).
 
-(* doomed: a batch has read a chain the handler had not been told about.  Up to some height j < top the
-   store is exact (what is above j is rolled back by [rollback_credits]); above j it holds what the
-   batch read on the other branch; and the handler's block at height j+1 is no longer on the node's
-   chain: the handler cannot extend its chain, it must first reorganise to height <= j — which
-   deletes everything above j and pulls the cursor back. *)
-Definition doomed (c : list block) (n : node) (top : Z) (st : xstate) : Prop :=
-  exists j x, 0 <= j < top /\
-    rollback_credits (credits (x_w st)) (j + 1) = E p kown (ptxs (upto j c)) /\
-    brs_ok_upto c j (x_brecs st) /\
-    nth_error c (Z.to_nat j + 1) = Some x /\ ~ In x n.
-
-Record xinv (c : list block) (n : node) (st : xstate) : Prop := {
+(* the invariant, for the chain c the handler follows — whatever the node's chain is: the repaired batch
+   commits only blocks of c (it compares the node's block at its upper height with the synced one), so
+   the store never holds anything of a chain the handler has not been told about *)
+Record xinv (c : list block) (st : xstate) : Prop := {
   xi_wf : wf_chain c;
   xi_g : from_g g c;
   xi_U : incl c U;
@@ -783,27 +773,11 @@ Record xinv (c : list block) (n : node) (st : xstate) : Prop := {
   xi_keys : x_keys st = keys;
   xi_dead : x_dead st = [];
   xi_cov : covered (x_brecs st) (credits (x_w st));
-  xi_state : exists top, top_is c st top /\ 0 <= top <= chain_height c /\ (clean c top st \/ doomed c n top st)
+  xi_state : exists top, top_is c st top /\ 0 <= top <= chain_height c /\ clean c top st
 }.
 
 Lemma agree_U : forall c n, incl c U -> incl n U -> ids_agree c n.
 Proof. intros c n Hc Hn b1 b2 H1 H2 Hid. apply U_ids; [apply Hc|apply Hn|]; assumption. Qed.
-
-Lemma doomed_not_incl : forall c n top st, doomed c n top st -> incl c n -> False.
-Proof.
-  intros c n top st [j [x [_ [_ [_ [Hx Hn]]]]]] Hincl. apply Hn. apply Hincl. apply (nth_error_In _ _ Hx).
-Qed.
-
-(* the node's chain changes: only the "no longer on the node" part is concerned *)
-Lemma xinv_node_change : forall c n n' st,
-  xinv c n st -> (forall x, In x c -> In x n' -> In x n) -> xinv c n' st.
-Proof.
-  intros c n n' st [H1 H2 H3 H4 H5 H6 H7 [top [Ht [Hr Hcd]]]] Hn.
-  constructor; try assumption. exists top. split; [assumption|split; [assumption|]].
-  destruct Hcd as [Hc|[j [x [Hj [Hrb [Hbr [Hx Hnx]]]]]]]; [left; assumption|right].
-  exists j, x. repeat (split; [assumption|]). intros Hin. apply Hnx. apply Hn; [|assumption].
-  apply (nth_error_In _ _ Hx).
-Qed.
 
 Lemma tip_synced_of : forall c z cs, tip {| credits := cs; synced := synced_of (c ++ [z]) |} = (b_height z, b_id z).
 Proof. intros. unfold tip. cbn [synced]. rewrite synced_of_snoc. reflexivity. Qed.
@@ -812,7 +786,7 @@ Lemma xw_eta : forall st, x_w st = {| credits := credits (x_w st); synced := syn
 Proof. intros st. destruct (x_w st). reflexivity. Qed.
 
 (* the handler has processed the node's tip: it follows the node's chain *)
-Lemma xinv_in_step : forall c n st, ninv n -> xinv c n st ->
+Lemma xinv_in_step : forall c n st, ninv n -> xinv c st ->
   snd (tip (x_w st)) = b_id (last n g) -> c = n.
 Proof.
   intros c n st [Hwfn [Hgn HnU]] Hinv Htip. destruct Hinv as [Hwfc Hgc HcU Hsy _ _ _ _].
@@ -855,11 +829,11 @@ Proof.
   cbn [x_w credits synced x_keys x_dead x_brecs]. repeat split. apply rollback_by_records. assumption.
 Qed.
 
-Lemma xrollback_own : forall c n st c1 y c2,
-  xinv c n st -> c = c1 ++ y :: c2 ->
-  exists st1, xrollback repaired st (b_height y + 1) = XOk st1 /\ xinv (c1 ++ [y]) n st1.
+Lemma xrollback_own : forall c st c1 y c2,
+  xinv c st -> c = c1 ++ y :: c2 ->
+  exists st1, xrollback repaired st (b_height y + 1) = XOk st1 /\ xinv (c1 ++ [y]) st1.
 Proof.
-  intros c n st c1 y c2 [Hwf Hg HU Hsy Hkeys Hdead Hcov [top [Htop [Hrange Hcd]]]] Hc.
+  intros c st c1 y c2 [Hwf Hg HU Hsy Hkeys Hdead Hcov [top [Htop [Hrange [Hcr [Hbok Hble]]]]]] Hc.
   destruct (wf_linked _ Hwf) as [pv Hl].
   set (hy := b_height y). set (c' := c1 ++ [y]).
   assert (Hc' : c = c' ++ c2) by (unfold c'; rewrite Hc, <- app_assoc; reflexivity).
@@ -890,33 +864,14 @@ Proof.
       * right. split; [|lia].
         destruct (rollback_keeps_other_status repaired st (b_height y + 1) _ w Hrb1) as [Hr _].
         apply Hr. assumption.
-    + unfold clean, doomed. rewrite Fcr, Fb.
-      destruct Hcd as [[Hcr [Hbok Hble]]|[j [x [Hj [Hrb [Hbr [Hx Hnx]]]]]]].
-      * left. split; [|split].
-        -- rewrite Hcr. fold hy. rewrite (rollback_E_upto p kown c top hy Hwf) by lia.
-           rewrite Hup by lia. reflexivity.
-        -- intros br Hbr. apply filter_In in Hbr. destruct Hbr as [Hbr Hh]. apply Z.ltb_lt in Hh. fold hy in Hh.
-           destruct (Hbok br Hbr) as [b [Hb [Hbh Hbid]]]. exists b. split; [|split; assumption].
-           apply Hin'; [assumption|lia].
-        -- intros br Hbr. apply filter_In in Hbr. destruct Hbr as [Hbr Hh]. apply Z.ltb_lt in Hh. fold hy in Hh.
-           specialize (Hble br Hbr). lia.
-      * destruct (Z.le_gt_cases hy j) as [Hle|Hgt].
-        -- left. replace (Z.min top hy) with hy by lia. split; [|split].
-           ++ fold hy. rewrite <- (rollback_credits_twice _ (hy + 1) (j + 1)) by lia. rewrite Hrb.
-              rewrite (rollback_E_upto p kown c j hy Hwf) by lia. replace (Z.min j hy) with hy by lia.
-              rewrite Hup by lia. reflexivity.
-           ++ intros br Hbr0. apply filter_In in Hbr0. destruct Hbr0 as [Hbr0 Hh]. apply Z.ltb_lt in Hh. fold hy in Hh.
-              destruct (Hbr br Hbr0) as [b [Hb [Hbh Hbid]]]; [lia|].
-              exists b. split; [|split; assumption]. apply Hin'; [assumption|lia].
-           ++ intros br Hbr0. apply filter_In in Hbr0. destruct Hbr0 as [_ Hh]. apply Z.ltb_lt in Hh. fold hy in Hh. lia.
-        -- right. exists j, x. split; [lia|split; [|split; [|split]]].
-           ++ fold hy. rewrite (rollback_credits_twice _ (j + 1) (hy + 1)) by lia. rewrite Hrb.
-              rewrite Hup by lia. reflexivity.
-           ++ intros br Hbr0 Hle. apply filter_In in Hbr0. destruct Hbr0 as [Hbr0 _].
-              destruct (Hbr br Hbr0 Hle) as [b [Hb [Hbh Hbid]]]. exists b. split; [|split; assumption].
-              apply Hin'; [assumption|lia].
-           ++ rewrite Hc' in Hx. rewrite nth_error_app1 in Hx by lia. assumption.
-           ++ assumption.
+    + unfold clean. rewrite Fcr, Fb. split; [|split].
+      * rewrite Hcr. fold hy. rewrite (rollback_E_upto p kown c top hy Hwf) by lia.
+        rewrite Hup by lia. reflexivity.
+      * intros br Hbr. apply filter_In in Hbr. destruct Hbr as [Hbr Hh]. apply Z.ltb_lt in Hh. fold hy in Hh.
+        destruct (Hbok br Hbr) as [b [Hb [Hbh Hbid]]]. exists b. split; [|split; assumption].
+        apply Hin'; [assumption|lia].
+      * intros br Hbr. apply filter_In in Hbr. destruct Hbr as [Hbr Hh]. apply Z.ltb_lt in Hh. fold hy in Hh.
+        specialize (Hble br Hbr). lia.
 Qed.
 
 (* ---------------------------------------------------------------- connecting the node's next blocks *)
@@ -925,13 +880,11 @@ Lemma brs_ok_mono : forall c c' brs, incl c c' -> brs_ok c brs -> brs_ok c' brs.
 Proof. intros c c' brs Hi Hok br Hbr. destruct (Hok br Hbr) as [b [Hb Hr]]. exists b. split; [apply Hi; assumption|assumption]. Qed.
 
 Lemma xconnect_block_inv : forall c n st b r,
-  ninv n -> xinv c n st -> n = c ++ b :: r ->
-  exists st', xconnect_block p n st b = XOk st' /\ xinv (c ++ [b]) n st'.
+  ninv n -> xinv c st -> n = c ++ b :: r ->
+  exists st', xconnect_block p n st b = XOk st' /\ xinv (c ++ [b]) st'.
 Proof.
   intros c n st b r [Hwfn [Hgn HnU]] Hinv Hn.
-  assert (Hcn : incl c n). { intros z Hz. rewrite Hn. apply in_or_app. left. assumption. }
-  destruct Hinv as [Hwf Hg HU Hsy Hkeys Hdead Hcov [top [Htop [Hrange Hcd]]]].
-  destruct Hcd as [[Hcr [Hbok Hble]]|Hd]; [|exfalso; apply (doomed_not_incl _ _ _ _ Hd Hcn)].
+  destruct Hinv as [Hwf Hg HU Hsy Hkeys Hdead Hcov [top [Htop [Hrange [Hcr [Hbok Hble]]]]]].
   pose proof (wf_nonempty _ Hwf) as Hne.
   destruct (chain_prefix_facts n c b r Hwfn Hn Hne) as [Hwfp [Hwft Hlook]].
   destruct (wf_linked _ Hwfn) as [pvn Hln].
@@ -948,7 +901,7 @@ Proof.
     eexists. split; [reflexivity|].
     constructor; cbn [with_w x_w credits synced x_keys x_dead x_brecs]; try assumption.
     + rewrite synced_of_snoc, Hsy. reflexivity.
-    + exists top. split; [left; exact Hs|]. split; [rewrite chain_height_app1; lia|]. left.
+    + exists top. split; [left; exact Hs|]. split; [rewrite chain_height_app1; lia|].
       unfold clean. cbn [with_w x_w credits x_brecs]. split; [|split].
       * rewrite Hcr. rewrite upto_app_l by assumption. reflexivity.
       * apply (brs_ok_mono c); [apply incl_appl; apply incl_refl|assumption].
@@ -966,7 +919,7 @@ Proof.
     + exists (chain_height (c ++ [b])). split; [|split].
       * right. split; [|reflexivity]. unfold status_of in *. rewrite Hst'. assumption.
       * rewrite chain_height_app1. lia.
-      * left. unfold clean. rewrite Hxw', Hbr'. cbn [L credits]. split; [|split].
+      * unfold clean. rewrite Hxw', Hbr'. cbn [L credits]. split; [|split].
         -- rewrite upto_all. reflexivity.
         -- apply add_ids_ok; [|apply in_or_app; right; left; reflexivity].
            apply (brs_ok_mono c); [apply incl_appl; apply incl_refl|assumption].
@@ -974,8 +927,8 @@ Proof.
 Qed.
 
 Lemma xconnect_all_inv : forall bs c n st r,
-  ninv n -> xinv c n st -> n = c ++ bs ++ r ->
-  exists st', xconnect_all p n st bs = XOk st' /\ xinv (c ++ bs) n st'.
+  ninv n -> xinv c st -> n = c ++ bs ++ r ->
+  exists st', xconnect_all p n st bs = XOk st' /\ xinv (c ++ bs) st'.
 Proof.
   induction bs as [|b bs IH]; intros c n st r Hn Hinv Heq.
   - exists st. split; [reflexivity|]. rewrite app_nil_r. assumption.
@@ -990,11 +943,10 @@ Qed.
 (* ---------------------------------------------------------------- announcing a block of the node *)
 
 (* T: announcing ANY block of the node's chain (not the genesis) to the handler always succeeds, from
-   every state of the invariant; afterwards the handler follows the node's chain up to that block and
-   the store is clean again *)
+   every state of the invariant; afterwards the handler follows the node's chain up to that block *)
 Lemma xprocess_on_node : forall c n st b n1 n2,
-  ninv n -> xinv c n st -> n = n1 ++ b :: n2 -> n1 <> [] ->
-  exists st', xprocess repaired p n st b = XOk st' /\ xinv (n1 ++ [b]) n st'.
+  ninv n -> xinv c st -> n = n1 ++ b :: n2 -> n1 <> [] ->
+  exists st', xprocess repaired p n st b = XOk st' /\ xinv (n1 ++ [b]) st'.
 Proof.
   intros c n st b n1 n2 Hninv Hinv Hn Hne. pose proof Hninv as [Hwfn [Hgn HnU]].
   pose proof Hinv as [Hwfc Hgc HcU Hsy _ _ _ _].
@@ -1032,7 +984,7 @@ Proof.
     assert (Hc1 : c1 = m1).
     { apply (common_prefix c n pvc pvn 0 Hlc Hln Hids c1 y c2 m1 (m2 ++ n2)); assumption. }
     subst c1.
-    destruct (xrollback_own c n st m1 y c2 Hinv Hc) as [st1 [Hrb Hinv1]].
+    destruct (xrollback_own c st m1 y c2 Hinv Hc) as [st1 [Hrb Hinv1]].
     rewrite Hrb.
     destruct (xconnect_all_inv m2 (m1 ++ [y]) n st1 n2 Hninv Hinv1) as [st' [Hx Hinv']].
     { rewrite Hn', <- app_assoc. reflexivity. }
@@ -1056,13 +1008,13 @@ Qed.
 (* T: a processed announcement of any block (a block of the node, or an old block of the handler's own
    chain) keeps the invariant; a refused one changes nothing *)
 Lemma xprocess_inv : forall c n st b st',
-  ninv n -> xinv c n st -> In b U -> b <> g ->
+  ninv n -> xinv c st -> In b U -> b <> g ->
   xprocess repaired p n st b = XOk st' ->
-  exists c', xinv c' n st' /\ incl c' (c ++ n).
+  exists c', xinv c' st' /\ incl c' (c ++ n).
 Proof.
   intros c n st b st' Hninv Hinv HbU Hbg H. pose proof Hninv as [Hwfn [Hgn HnU]].
   pose proof Hinv as [Hwfc Hgc HcU Hsy _ _ _ _].
-  assert (Hnode : In b n -> exists c', xinv c' n st' /\ incl c' (c ++ n)).
+  assert (Hnode : In b n -> exists c', xinv c' st' /\ incl c' (c ++ n)).
   { intros Hbn. apply in_split in Hbn. destruct Hbn as [n1 [n2 Hn]].
     assert (Hne : n1 <> []).
     { intros Hnil. subst n1. destruct Hgn as [n' Hn']. rewrite Hn in Hn'. cbn [app] in Hn'. inversion Hn'. contradiction. }
@@ -1087,7 +1039,7 @@ Proof.
         - left. reflexivity.
         - rewrite <- Hm. apply matched_synced_ext. rewrite Hsy. reflexivity. }
       apply in_split in Hbc. destruct Hbc as [c1 [c2 Hc]].
-      destruct (xrollback_own c n st c1 b c2 Hinv Hc) as [st1 [Hrb' Hinv']].
+      destruct (xrollback_own c st c1 b c2 Hinv Hc) as [st1 [Hrb' Hinv']].
       rewrite Hrb' in Hrb. inversion Hrb. subst st1.
       exists (c1 ++ [b]). split; [assumption|]. apply incl_appl. rewrite Hc. intros z Hz.
       apply in_app_or in Hz. apply in_or_app. destruct Hz as [Hz|[Hz|[]]]; [left; assumption|right; left; assumption].
@@ -1171,14 +1123,41 @@ Proof.
   apply nth_error_None in E. lia.
 Qed.
 
-(* T: a batch (committed or not), reading ANY well-formed chain of the node, keeps the invariant *)
-Lemma batch_inv : forall B c n st, ninv n -> 0 < B -> xinv c n st ->
-  xinv c n (fst (import_batch repaired p B n st w)).
+(* the comparison the repaired asyncImport makes before committing: if the node's block at height h is the
+   handler's synced block of that height, the two chains are the same up to h *)
+Lemma node_on_synced_upto : forall c n st h, ninv n -> xinv c st ->
+  node_on_synced n (x_w st) h = true ->
+  0 <= h <= chain_height c /\ h <= chain_height n /\ upto h c = upto h n.
 Proof.
-  intros B c n st Hninv HB Hinv. pose proof Hninv as [Hwfn [Hgn HnU]].
-  pose proof Hinv as [Hwf Hg HU Hsy Hkeys Hdead Hcov [top [Htop [Hrange Hcd]]]].
+  intros c n st h [Hwfn [Hgn HnU]] [Hwf Hg HU Hsy _ _ _ _] Hchk.
   destruct (wf_linked _ Hwf) as [pvc Hlc]. destruct (wf_linked _ Hwfn) as [pvn Hln].
   pose proof (agree_U _ _ HU HnU) as Hids.
+  apply node_on_synced_iff in Hchk. destruct Hchk as [nb [Hat Hm]].
+  unfold node_at in Hat. apply find_some in Hat. destruct Hat as [Hnbn Hh]. apply Z.eqb_eq in Hh.
+  assert (Hnbc : In nb c).
+  { apply (matched_in p kown c n nb Hids Hnbn). rewrite <- Hm. apply matched_synced_ext. rewrite Hsy. reflexivity. }
+  apply in_split in Hnbc. destruct Hnbc as [c1 [c2 Hc]].
+  apply in_split in Hnbn. destruct Hnbn as [n1 [n2 Hn]].
+  assert (Hc1 : c1 = n1). { apply (common_prefix c n pvc pvn 0 Hlc Hln Hids c1 nb c2 n1 n2); assumption. }
+  subst n1.
+  assert (Hlen : h = Z.of_nat (length c1)). { rewrite Hc in Hlc. rewrite (linked_height _ _ _ _ _ Hlc) in Hh. lia. }
+  assert (Hc' : c = (c1 ++ [nb]) ++ c2) by (rewrite Hc, <- app_assoc; reflexivity).
+  assert (Hn' : n = (c1 ++ [nb]) ++ n2) by (rewrite Hn, <- app_assoc; reflexivity).
+  assert (Hl1 : (Z.to_nat h + 1 = length (c1 ++ [nb]))%nat). { rewrite app_length. cbn [length]. lia. }
+  split; [|split].
+  - unfold chain_height. rewrite Hc, app_length. cbn [length]. lia.
+  - unfold chain_height. rewrite Hn, app_length. cbn [length]. lia.
+  - rewrite Hc' at 1. rewrite Hn' at 1. rewrite !upto_exact by assumption. reflexivity.
+Qed.
+
+(* T: a batch — committed, retried, or refused because the node is not on the handler's chain — keeps the
+   invariant, whatever well-formed chain the node has *)
+Lemma batch_inv : forall B c n st, ninv n -> 0 < B -> xinv c st ->
+  xinv c (fst (import_batch repaired p B n st w)).
+Proof.
+  intros B c n st Hninv HB Hinv. pose proof Hninv as [Hwfn [Hgn HnU]].
+  pose proof Hinv as [Hwf Hg HU Hsy Hkeys Hdead Hcov [top [Htop [Hrange [Hcr [Hbok Hble]]]]]].
+  destruct (wf_linked _ Hwf) as [pvc Hlc]. destruct (wf_linked _ Hwfn) as [pvn Hln].
   unfold import_batch. destruct Htop as [Hs|[Hs Ht]].
   2:{ rewrite Hs. exact Hinv. }
   rewrite Hs, Hdead. cbn [memN existsb].
@@ -1187,99 +1166,62 @@ Proof.
   rewrite Hbest. rewrite (own_w_kown st Hkeys).
   set (stop := Z.min (top + B) (chain_height c)).
   assert (Hstop : top <= stop <= chain_height c) by (unfold stop; lia).
-  assert (Hlenc : Z.of_nat (length c) = chain_height c + 1) by (unfold chain_height; lia).
   destruct (import_blocks p kown n top stop (credits (x_w st), x_brecs st) n) as [[cs' brs']|e] eqn:Hb.
   2:{ destruct e; cbn; exact Hinv. }
-  cbn [fst].
+  cbn [repaired f_import_tipcheck andb].
+  destruct (node_on_synced n (x_w st) stop) eqn:Hchk; cbn [negb fst]; [|exact Hinv].
+  (* the batch read blocks of the handler's chain only: it is exact on it *)
+  destruct (node_on_synced_upto c n st stop Hninv Hinv Hchk) as [_ [Hsn Hups]].
   destruct (import_blocks_above _ _ _ _ _ _ _ _ _ _ Hb) as [G1 [G2 [G3 G4]]].
-  assert (Hble_stop : brs_le stop (x_brecs st) -> brs_le stop brs') by (intros Hx; apply G4; [assumption|lia]).
+  assert (Hupt : upto top c = upto top n).
+  { rewrite <- (upto_upto top stop c), <- (upto_upto top stop n) by lia. rewrite Hups. reflexivity. }
+  assert (Hbokn : brs_ok n (x_brecs st)).
+  { intros br Hbr. destruct (Hbok br Hbr) as [b0 [Hb0 [Hh0 Hid0]]]. exists b0. split; [|split; assumption].
+    apply (upto_incl top n). rewrite <- Hupt. apply (in_upto c pvc b0 top Hlc Hb0). specialize (Hble br Hbr). lia. }
+  destruct (import_blocks_exact p kown n top stop (x_brecs st) Hwfn ltac:(lia) ltac:(lia) Hbokn) as [brs'' [Hex Hbokn']].
+  rewrite <- Hupt, <- Hcr in Hex. rewrite Hex in Hb. rewrite Z.min_l in Hb by lia.
+  assert (Hcs : cs' = E p kown (ptxs (upto stop n))) by congruence.
+  assert (Hbs : brs' = brs'') by congruence. subst brs''.
+  assert (Hble' : brs_le stop brs').
+  { apply G4; [|lia]. intros br Hbr. specialize (Hble br Hbr). lia. }
   constructor; cbn [with_status with_brecs with_w x_w x_brecs x_keys x_dead x_status credits synced]; try assumption.
   - apply G2. assumption.
   - exists stop. split; [|split; [lia|]].
     + unfold top_is, status_of. cbn [with_status x_status]. rewrite lookupN_setN_same.
       destruct (stop =? chain_height c) eqn:Es; [right; split; [reflexivity|apply Z.eqb_eq; assumption]|left; reflexivity].
-    + unfold clean, doomed. cbn [with_status with_brecs with_w x_w x_brecs credits].
-      destruct Hcd as [[Hcr [Hbok Hble]]|[j [x [Hj [Hrb [Hbr [Hx Hnx]]]]]]].
-      2:{ (* already doomed: the batch touched heights above the cursor only *)
-          right. exists j, x. split; [lia|split; [|split; [|split; assumption]]].
-          - rewrite <- (rollback_credits_twice cs' (j + 1) (top + 1)) by lia. rewrite G1.
-            rewrite rollback_credits_twice by lia. assumption.
-          - intros br Hbr0 Hle. apply Hbr; [|assumption]. apply G3; [assumption|lia]. }
-      destruct (fork_point c n Hwf Hwfn Hg Hgn) as [i [Hi [Hin [Hup Hfx]]]].
-      destruct (Z.lt_ge_cases i top) as [Hlt|Hge].
-      * (* the node has left the handler's chain below the cursor *)
-        destruct (Z.eq_dec top (chain_height c)) as [Heq|Hneq].
-        -- (* nothing to read *)
-           assert (Hskip : import_blocks p kown n top stop (credits (x_w st), x_brecs st) n = inl (credits (x_w st), x_brecs st)).
-           { apply import_blocks_skip. intros b0 _. lia. }
-           rewrite Hskip in Hb. assert (Hcs : cs' = credits (x_w st)) by congruence. assert (Hbs : brs' = x_brecs st) by congruence.
-           subst cs' brs'. left. replace stop with top by lia. repeat split; assumption.
-        -- destruct (nth_exists c (Z.to_nat top + 1) ltac:(lia)) as [x' Hx'].
-           destruct (nth_exists c (Z.to_nat i + 1) ltac:(lia)) as [x0 Hx0].
-           right. exists top, x'. split; [unfold stop; lia|split; [|split; [|split; [assumption|]]]].
-           ++ rewrite G1, Hcr. rewrite (rollback_E_upto p kown c top top Hwf) by lia. rewrite Z.min_id. reflexivity.
-           ++ intros br Hbr0 Hle. apply Hbok. apply G3; assumption.
-           ++ intros Hin'. apply (Hfx x0 Hx0).
-              apply (below_on_node c n pvc pvn (Z.to_nat top + 1) x' (Z.to_nat i + 1) x0 Hlc Hln Hids Hx' Hin'); [lia|assumption].
-      * (* the node's chain agrees with the handler's up to the cursor: the batch is exact on the node's chain *)
-        assert (Hupt : upto top c = upto top n).
-        { rewrite <- (upto_upto top i c), <- (upto_upto top i n) by lia. rewrite Hup. reflexivity. }
-        assert (Hbokn : brs_ok n (x_brecs st)).
-        { intros br Hbr. destruct (Hbok br Hbr) as [b0 [Hb0 [Hh0 Hid0]]]. exists b0. split; [|split; assumption].
-          apply (upto_incl top n). rewrite <- Hupt. apply (in_upto c pvc b0 top Hlc Hb0). specialize (Hble br Hbr). lia. }
-        destruct (import_blocks_exact p kown n top stop (x_brecs st) Hwfn ltac:(lia) ltac:(lia) Hbokn) as [brs'' [Hex Hbokn']].
-        rewrite <- Hupt, <- Hcr in Hex. rewrite Hex in Hb.
-        set (s := Z.min stop (chain_height n)) in *.
-        assert (Hcs : cs' = E p kown (ptxs (upto s n))) by congruence.
-        assert (Hbs : brs' = brs'') by congruence. subst brs''.
-        assert (Hble' : brs_le stop brs').
-        { apply Hble_stop. intros br Hbr. specialize (Hble br Hbr). lia. }
-        destruct (Z.le_gt_cases stop i) as [Hle|Hgt].
-        -- (* ... on the whole range: clean *)
-           assert (Hups : upto stop c = upto stop n).
-           { rewrite <- (upto_upto stop i c), <- (upto_upto stop i n) by lia. rewrite Hup. reflexivity. }
-           left. split; [|split; [|assumption]].
-           ++ rewrite Hcs. unfold s. rewrite Z.min_l by lia. rewrite Hups. reflexivity.
-           ++ intros br Hbr. destruct (Hbokn' br Hbr) as [b0 [Hb0 [Hh0 Hid0]]]. exists b0. split; [|split; assumption].
-              apply (upto_incl stop c). rewrite Hups. apply (in_upto n pvn b0 stop Hln Hb0). specialize (Hble' br Hbr). lia.
-        -- (* ... the range goes beyond the fork: what was read above it is the other branch's *)
-           destruct (nth_exists c (Z.to_nat i + 1) ltac:(lia)) as [x0 Hx0].
-           right. exists i, x0. split; [lia|split; [|split; [|split; [assumption|apply Hfx; assumption]]]].
-           ++ rewrite Hcs. rewrite (rollback_E_upto p kown n s i Hwfn) by (unfold s; lia).
-              replace (Z.min s i) with i by (unfold s; lia). rewrite Hup. reflexivity.
-           ++ intros br Hbr Hle. destruct (Hbokn' br Hbr) as [b0 [Hb0 [Hh0 Hid0]]]. exists b0. split; [|split; assumption].
-              apply (upto_incl i c). rewrite Hup. apply (in_upto n pvn b0 i Hln Hb0). lia.
+    + unfold clean. cbn [with_status with_brecs with_w x_w x_brecs credits]. split; [|split; [|assumption]].
+      * rewrite Hcs, Hups. reflexivity.
+      * intros br Hbr. destruct (Hbokn' br Hbr) as [b0 [Hb0 [Hh0 Hid0]]]. exists b0. split; [|split; assumption].
+        apply (upto_incl stop c). rewrite Hups. apply (in_upto n pvn b0 stop Hln Hb0). specialize (Hble' br Hbr). lia.
 Qed.
 
 (* ---------------------------------------------------------------- what the invariant gives *)
 
 (* (b) the handler follows the node's chain and the wallet is ready: the store is the ledger of that chain *)
-Lemma xinv_ready_correct : forall n st, xinv n n st -> status_of st w = Some WReady -> x_w st = L p kown n.
+Lemma xinv_ready_correct : forall n st, xinv n st -> status_of st w = Some WReady -> x_w st = L p kown n.
 Proof.
-  intros n st [Hwf Hg HU Hsy Hkeys Hdead Hcov [top [Htop [Hrange Hcd]]]] Hs.
-  destruct Hcd as [[Hcr _]|Hd]; [|exfalso; apply (doomed_not_incl _ _ _ _ Hd (incl_refl n))].
+  intros n st [Hwf Hg HU Hsy Hkeys Hdead Hcov [top [Htop [Hrange [Hcr _]]]]] Hs.
   destruct Htop as [Hs'|[_ Ht]]; [congruence|].
   rewrite (xw_eta st). unfold L. rewrite Hcr, Hsy, Ht, upto_all. reflexivity.
 Qed.
 
-Lemma xinv_unready : forall c n st, xinv c n st -> status_of st w <> Some WReady -> use_wallet st w = UUnready.
+Lemma xinv_unready : forall c st, xinv c st -> status_of st w <> Some WReady -> use_wallet st w = UUnready.
 Proof.
-  intros c n st [_ _ _ _ _ _ _ [top [Htop _]]] Hs. destruct Htop as [Hs'|[Hs' _]]; [|contradiction].
+  intros c st [_ _ _ _ _ _ _ [top [Htop _]]] Hs. destruct Htop as [Hs'|[Hs' _]]; [|contradiction].
   unfold use_wallet. rewrite Hs'. reflexivity.
 Qed.
 
-Lemma xinv_cursor_range : forall c n st k, xinv c n st -> status_of st w = Some (WImporting k) -> 0 <= k <= chain_height c.
+Lemma xinv_cursor_range : forall c st k, xinv c st -> status_of st w = Some (WImporting k) -> 0 <= k <= chain_height c.
 Proof.
-  intros c n st k [_ _ _ _ _ _ _ [top [Htop [Hr _]]]] Hs. destruct Htop as [Hs'|[Hs' _]]; [|congruence].
+  intros c st k [_ _ _ _ _ _ _ [top [Htop [Hr _]]]] Hs. destruct Htop as [Hs'|[Hs' _]]; [|congruence].
   rewrite Hs in Hs'. inversion Hs'. subst. assumption.
 Qed.
 
 (* in step, the state is the one the static theorem starts from *)
-Lemma xinv_importing : forall n st k, xinv n n st -> status_of st w = Some (WImporting k) ->
+Lemma xinv_importing : forall n st k, xinv n st -> status_of st w = Some (WImporting k) ->
   importing p n w kown k st.
 Proof.
-  intros n st k [Hwf Hg HU Hsy Hkeys Hdead Hcov [top [Htop [Hrange Hcd]]]] Hs.
-  destruct Hcd as [[Hcr [Hbok _]]|Hd]; [|exfalso; apply (doomed_not_incl _ _ _ _ Hd (incl_refl n))].
+  intros n st k [Hwf Hg HU Hsy Hkeys Hdead Hcov [top [Htop [Hrange [Hcr [Hbok _]]]]]] Hs.
   destruct Htop as [Hs'|[Hs' _]]; [|congruence]. rewrite Hs in Hs'. inversion Hs'. subst top.
   constructor; try assumption.
   - rewrite Hdead. reflexivity.
@@ -1287,13 +1229,13 @@ Proof.
 Qed.
 
 (* (c) in step with a static chain: every batch commits and advances the cursor by B, or hands over *)
-Lemma batch_progress : forall B n st k, 0 < B -> xinv n n st -> status_of st w = Some (WImporting k) ->
+Lemma batch_progress : forall B n st k, 0 < B -> xinv n st -> status_of st w = Some (WImporting k) ->
   let stop := Z.min (k + B) (chain_height n) in
   snd (import_batch repaired p B n st w) = IOk /\
   status_of (fst (import_batch repaired p B n st w)) w =
     Some (if stop =? chain_height n then WReady else WImporting stop).
 Proof.
-  intros B n st k HB Hinv Hs stop. pose proof (xi_wf _ _ _ Hinv) as Hwf.
+  intros B n st k HB Hinv Hs stop. pose proof (xi_wf _ _ Hinv) as Hwf.
   destruct (import_batch_step repaired p B n w kown k st Hwf HB (xinv_importing n st k Hinv Hs)) as [st' [Hb [_ [_ Hcase]]]].
   rewrite Hb. cbn [fst snd]. split; [reflexivity|]. fold stop in Hcase.
   destruct (stop =? chain_height n); [assumption|]. destruct Hcase. assumption.
@@ -1305,18 +1247,18 @@ Proof.
   cbn [batches]. rewrite (batch_noop_when_ready fx p B n st w Hs). cbn [fst]. apply IH. assumption.
 Qed.
 
-Lemma batches_inv : forall B n m c st, ninv n -> 0 < B -> xinv c n st -> xinv c n (batches repaired p B n st w m).
+Lemma batches_inv : forall B n m c st, ninv n -> 0 < B -> xinv c st -> xinv c (batches repaired p B n st w m).
 Proof.
   intros B n m. induction m as [|m IH]; intros c st Hn HB Hinv; [assumption|].
   cbn [batches]. apply IH; try assumption. apply batch_inv; assumption.
 Qed.
 
-Lemma batches_live : forall B n m st k, ninv n -> 0 < B -> xinv n n st ->
+Lemma batches_live : forall B n m st k, ninv n -> 0 < B -> xinv n st ->
   status_of st w = Some (WImporting k) -> chain_height n < k + Z.of_nat m * B ->
   status_of (batches repaired p B n st w m) w = Some WReady.
 Proof.
   intros B n m. induction m as [|m IH]; intros st k Hn HB Hinv Hs Hm.
-  - pose proof (xinv_cursor_range n n st k Hinv Hs). lia.
+  - pose proof (xinv_cursor_range n st k Hinv Hs). lia.
   - cbn [batches]. destruct (batch_progress B n st k HB Hinv Hs) as [_ Hst].
     pose proof (batch_inv B n n st Hn HB Hinv) as Hinv1.
     destruct (Z.min (k + B) (chain_height n) =? chain_height n) eqn:Es.
@@ -1326,13 +1268,13 @@ Qed.
 
 (* ---------------------------------------------------------------- the start *)
 
-Lemma xinv_import_start : forall c0 n0 pass st1,
+Lemma xinv_import_start : forall c0 pass st1,
   wf_chain c0 -> from_g g c0 -> incl c0 U -> keys <> [] ->
   import_start (xinit c0) w pass (map fst keys) = Some st1 ->
   (forall e, In e keys -> snd e = w) ->
-  xinv c0 n0 st1.
+  xinv c0 st1.
 Proof.
-  intros c0 n0 pass st1 Hwf Hg HU Hne H Hall. unfold import_start in H. cbn in H. inversion H. subst st1. clear H.
+  intros c0 pass st1 Hwf Hg HU Hne H Hall. unfold import_start in H. cbn in H. inversion H. subst st1. clear H.
   assert (Hk : map (fun sh => (sh, w)) (map fst keys) = keys).
   { rewrite map_map. rewrite <- (map_id keys) at 2. apply map_ext_in. intros [a b] Hin. cbn. rewrite <- (Hall _ Hin). reflexivity. }
   destruct (wf_genesis _ Hwf) as [g0 [rest [Hc [Hh [Htx Hl]]]]].
@@ -1341,7 +1283,7 @@ Proof.
   - exists 0. split; [|split].
     + left. unfold status_of. cbn. destruct keys; [contradiction|]. cbn. rewrite N.eqb_refl. reflexivity.
     + unfold chain_height. subst c0. cbn [length]. lia.
-    + left. unfold clean. cbn [x_w credits x_brecs xinit]. split; [|split].
+    + unfold clean. cbn [x_w credits x_brecs xinit]. split; [|split].
       * unfold upto. cbn. subst c0. cbn. unfold ptxs. cbn. unfold ptxs_of_block. rewrite Htx. reflexivity.
       * intros br [].
       * intros br [].
@@ -1364,15 +1306,14 @@ Hypothesis B_pos : 0 < B.
 
 (* what the environment may do at simulation state s:
    - the node connects a block b (of the universe U in which ids name one block) that keeps its chain well
-     formed and that is NOT a block the handler still has as synced at that height (the node does not come
-     back to a block it disconnected before the handler was told — see [import_bounce_refuted]);
+     formed — any such block, also one it disconnected earlier and the handler still has as synced;
    - the node disconnects its best block (not the genesis);
    - the handler processes the announcement of any block of U but the genesis — now, whatever the node's
      chain is at that moment;
    - the worker runs one rescan batch of wallet w. *)
 Definition ev_ok (s : xsim) (e : xevent) : Prop :=
   match e with
-  | XAttach b => In b U /\ wf_chain (xs_node s ++ [b]) /\ matched (x_w (xs_st s)) b = false
+  | XAttach b => In b U /\ wf_chain (xs_node s ++ [b])
   | XDetach => wf_chain (removelast (xs_node s))
   | XProcess b => In b U /\ b <> g
   | XBatch v => v = w
@@ -1386,7 +1327,7 @@ Fixpoint xwf (s : xsim) (h : list xevent) : Prop :=
   end.
 
 Definition sinv (s : xsim) : Prop :=
-  xs_crashed s = false /\ ninv g U (xs_node s) /\ exists c, xinv p g U w keys c (xs_node s) (xs_st s).
+  xs_crashed s = false /\ ninv g U (xs_node s) /\ exists c, xinv p g U w keys c (xs_st s).
 
 Lemma from_g_removelast : forall n, from_g g n -> removelast n <> [] -> from_g g (removelast n).
 Proof.
@@ -1395,32 +1336,26 @@ Proof.
 Qed.
 
 Lemma xinv_step : forall s e c,
-  xs_crashed s = false -> ninv g U (xs_node s) -> xinv p g U w keys c (xs_node s) (xs_st s) -> ev_ok s e ->
+  xs_crashed s = false -> ninv g U (xs_node s) -> xinv p g U w keys c (xs_st s) -> ev_ok s e ->
   let s' := xstep repaired p B cap s e in
   xs_crashed s' = false /\ ninv g U (xs_node s') /\
-  exists c', xinv p g U w keys c' (xs_node s') (xs_st s') /\ incl c' (c ++ xs_node s).
+  exists c', xinv p g U w keys c' (xs_st s') /\ incl c' (c ++ xs_node s).
 Proof.
   intros s e c Hcr Hninv Hinv Hok. pose proof Hninv as [Hwfn [Hgn HnU]].
   assert (Hcc : incl c (c ++ xs_node s)) by (apply incl_appl; apply incl_refl).
   destruct e as [b| |b|w0 ps|sh w0|w0 ps shs|v|w0 ps|w0|w0|]; cbn [ev_ok] in Hok; try contradiction.
   - (* attach *)
-    destruct Hok as [HbU [Hwf' Hnm]]. cbn [xstep]. split; [assumption|]. cbn [xs_node xs_st]. split.
+    destruct Hok as [HbU Hwf']. cbn [xstep]. split; [assumption|]. cbn [xs_node xs_st]. split.
     + split; [assumption|split].
       * destruct Hgn as [n' Hn']. rewrite Hn'. exists (n' ++ [b]). reflexivity.
       * intros z Hz. apply in_app_or in Hz. destruct Hz as [Hz|[Hz|[]]]; [apply HnU; assumption|subst z; assumption].
-    + exists c. split; [|assumption]. apply (xinv_node_change p g U w keys c (xs_node s)); [assumption|].
-      intros x Hxc Hx. apply in_app_or in Hx. destruct Hx as [Hx|[Hx|[]]]; [assumption|]. subst x. exfalso.
-      destruct (wf_linked _ (xi_wf _ _ _ _ _ _ _ _ Hinv)) as [pvc Hlc].
-      pose proof (in_matched p (kown w keys) c b pvc 0 Hlc Hxc) as Hm.
-      rewrite (matched_synced_ext (x_w (xs_st s)) (L p (kown w keys) c)) in Hnm; [congruence|].
-      rewrite (xi_synced _ _ _ _ _ _ _ _ Hinv). reflexivity.
+    + exists c. split; assumption.
   - (* detach *)
     cbn [xstep]. split; [assumption|]. cbn [xs_node xs_st]. split.
     + split; [assumption|split].
       * apply from_g_removelast; [assumption|]. apply wf_nonempty. assumption.
       * intros z Hz. apply HnU. apply removelast_in. assumption.
-    + exists c. split; [|assumption]. apply (xinv_node_change p g U w keys c (xs_node s)); [assumption|].
-      intros x _ Hx. apply removelast_in. assumption.
+    + exists c. split; assumption.
   - (* process *)
     destruct Hok as [HbU Hbg]. cbn [xstep]. rewrite Hcr.
     destruct (xprocess repaired p (xs_node s) (xs_st s) b) as [st'| |] eqn:Hx.
@@ -1449,10 +1384,10 @@ Qed.
 (* the handler has processed the node's tip *)
 Definition in_step (s : xsim) : Prop := snd (tip (x_w (xs_st s))) = b_id (last (xs_node s) g).
 
-Lemma sinv_in_step : forall s, sinv s -> in_step s -> xinv p g U w keys (xs_node s) (xs_node s) (xs_st s).
+Lemma sinv_in_step : forall s, sinv s -> in_step s -> xinv p g U w keys (xs_node s) (xs_st s).
 Proof.
   intros s [_ [Hninv [c Hinv]]] Hstep.
-  rewrite <- (xinv_in_step p g U U_ids w keys c _ _ Hninv Hinv Hstep) at 1. assumption.
+  rewrite <- (xinv_in_step p g U U_ids w keys c _ _ Hninv Hinv Hstep). assumption.
 Qed.
 
 (* (b) *)
@@ -1463,17 +1398,17 @@ Lemma sinv_correct : forall s, sinv s -> in_step s -> status_of (xs_st s) w = So
 Proof.
   intros s Hs Hstep Hr own. pose proof (sinv_in_step s Hs Hstep) as Hinv.
   destruct Hs as [_ [[Hwfn _] _]].
-  assert (Hown : own = kown w keys). { apply own_w_kown. apply (xi_keys _ _ _ _ _ _ _ _ Hinv). }
+  assert (Hown : own = kown w keys). { apply own_w_kown. apply (xi_keys _ _ _ _ _ _ _ Hinv). }
   rewrite Hown. pose proof (xinv_ready_correct p g U w keys _ _ Hinv Hr) as Hx.
   split; [rewrite Hx; apply ledger_of_chain_L; assumption|].
   unfold xreport. rewrite Hx. apply report_L. assumption.
 Qed.
 
 Lemma sinv_unready : forall s, sinv s -> status_of (xs_st s) w <> Some WReady -> use_wallet (xs_st s) w = UUnready.
-Proof. intros s [_ [_ [c Hinv]]] H. apply (xinv_unready p g U w keys c _ _ Hinv H). Qed.
+Proof. intros s [_ [_ [c Hinv]]] H. apply (xinv_unready p g U w keys c _ Hinv H). Qed.
 
 Lemma sinv_alive : forall s, sinv s -> x_dead (xs_st s) = [] /\ xs_crashed s = false.
-Proof. intros s [Hc [_ [c Hinv]]]. split; [apply (xi_dead _ _ _ _ _ _ _ _ Hinv)|assumption]. Qed.
+Proof. intros s [Hc [_ [c Hinv]]]. split; [apply (xi_dead _ _ _ _ _ _ _ Hinv)|assumption]. Qed.
 
 (* the handler always accepts the announcement of a block of the node's chain; of the tip: in step again *)
 Lemma sinv_process_tip : forall s b, sinv s -> last (xs_node s) g = b -> b <> g ->
@@ -1490,7 +1425,7 @@ Proof.
   assert (Hs' : s' = with_st s st'). { unfold s'. cbn [xstep]. rewrite Hcr, Hx. reflexivity. }
   rewrite Hs'. cbn [with_st xs_node xs_st]. split; [|split; [|reflexivity]].
   - split; [assumption|]. split; [assumption|]. exists (xs_node s). assumption.
-  - unfold in_step. cbn [with_st xs_node xs_st]. rewrite (xw_eta st'), (xi_synced _ _ _ _ _ _ _ _ Hinv').
+  - unfold in_step. cbn [with_st xs_node xs_st]. rewrite (xw_eta st'), (xi_synced _ _ _ _ _ _ _ Hinv').
     rewrite Hn at 1. rewrite tip_synced_of. rewrite Hlast. reflexivity.
 Qed.
 
@@ -1508,7 +1443,7 @@ Lemma import_batch_keeps_synced : forall fx n st, synced (x_w (fst (import_batch
 Proof.
   intros fx n st. unfold import_batch. destruct (status_of st w) as [[|k|]|]; try reflexivity.
   destruct (memN w (x_dead st)); [reflexivity|].
-  destruct (import_blocks _ _ _ _ _ _ _) as [[cs brs]|e]; [reflexivity|].
+  destruct (import_blocks _ _ _ _ _ _ _) as [[cs brs]|e]; [destruct (f_import_tipcheck fx && negb _); reflexivity|].
   destruct e; [| |destruct (f_import_retry fx)]; reflexivity.
 Qed.
 
@@ -1526,60 +1461,13 @@ Proof.
   intros s m Hs Hstep Hm s'. pose proof (sinv_in_step s Hs Hstep) as Hinv.
   pose proof Hs as [Hcr [Hninv _]].
   unfold s'. rewrite fold_batches. cbn [with_st xs_node xs_st xs_crashed].
-  pose proof (batches_inv p g U U_ids w keys B _ m _ _ Hninv B_pos Hinv) as Hinv'.
+  pose proof (batches_inv p g U U_ids w keys B (xs_node s) m _ _ Hninv B_pos Hinv) as Hinv'.
   split; [|split; [|split; [reflexivity|]]].
   - split; [assumption|]. split; [assumption|]. eexists. exact Hinv'.
   - unfold in_step in *. cbn [with_st xs_node xs_st]. unfold tip in *. rewrite batches_keep_synced. assumption.
-  - destruct (xi_state _ _ _ _ _ _ _ _ Hinv) as [top [[Hsi|[Hsr _]] _]].
+  - destruct (xi_state _ _ _ _ _ _ _ Hinv) as [top [[Hsi|[Hsr _]] _]].
     + apply (batches_live p g U U_ids w keys B _ m _ top Hninv B_pos Hinv Hsi). apply Hm. assumption.
     + rewrite batches_ready; assumption.
-Qed.
-
-(* ---------------------------------------------------------------- a purely environmental sufficient condition *)
-
-(* the node never connects a block it has connected before ([A]: the blocks connected so far) *)
-Definition ev_fresh (A : list block) (s : xsim) (e : xevent) : Prop :=
-  match e with
-  | XAttach b => In b U /\ wf_chain (xs_node s ++ [b]) /\ ~ In b A
-  | XDetach => wf_chain (removelast (xs_node s))
-  | XProcess b => In b U /\ b <> g
-  | XBatch v => v = w
-  | _ => False
-  end.
-
-Definition grow (A : list block) (e : xevent) : list block :=
-  match e with XAttach b => A ++ [b] | _ => A end.
-
-Fixpoint xwf_fresh (A : list block) (s : xsim) (h : list xevent) : Prop :=
-  match h with
-  | [] => True
-  | e :: r => ev_fresh A s e /\ xwf_fresh (grow A e) (xstep repaired p B cap s e) r
-  end.
-
-Lemma xwf_of_fresh : forall h A s c,
-  xs_crashed s = false -> ninv g U (xs_node s) -> xinv p g U w keys c (xs_node s) (xs_st s) ->
-  incl c A -> incl (xs_node s) A -> xwf_fresh A s h -> xwf s h.
-Proof.
-  induction h as [|e r IH]; intros A s c Hcr Hninv Hinv HcA HnA Hf; [exact I|].
-  destruct Hf as [Hf Hr].
-  assert (Hok : ev_ok s e).
-  { destruct e as [b| |b|w0 ps|sh w0|w0 ps shs|v|w0 ps|w0|w0|]; cbn [ev_fresh ev_ok] in *; try assumption.
-    destruct Hf as [HbU [Hwf Hn]]. split; [assumption|split; [assumption|]].
-    destruct (matched (x_w (xs_st s)) b) eqn:Hm; [|reflexivity]. exfalso. apply Hn. apply HcA.
-    apply (matched_in p (kown w keys) c [b] b).
-    - apply (agree_U U U_ids); [apply (xi_U _ _ _ _ _ _ _ _ Hinv)|]. intros z [Hz|[]]. subst z. assumption.
-    - left. reflexivity.
-    - rewrite <- Hm. apply matched_synced_ext. rewrite (xi_synced _ _ _ _ _ _ _ _ Hinv). reflexivity. }
-  split; [assumption|].
-  destruct (xinv_step s e c Hcr Hninv Hinv Hok) as [H1 [H2 [c' [H3 H4]]]].
-  assert (HAg : incl A (grow A e)). { destruct e; cbn [grow]; try apply incl_refl. apply incl_appl. apply incl_refl. }
-  apply (IH (grow A e) _ c'); try assumption.
-  - intros z Hz. apply HAg. specialize (H4 z Hz). apply in_app_or in H4. destruct H4; [apply HcA|apply HnA]; assumption.
-  - destruct e as [b| |b|w0 ps|sh w0|w0 ps shs|v|w0 ps|w0|w0|]; cbn [ev_ok] in Hok; try contradiction; cbn [grow xstep].
-    + cbn [xs_node]. intros z Hz. apply in_app_or in Hz. apply in_or_app. destruct Hz as [Hz|Hz]; [left; apply HnA; assumption|right; assumption].
-    + cbn [xs_node]. intros z Hz. apply HnA. apply removelast_in. assumption.
-    + rewrite Hcr. destruct (xprocess repaired p (xs_node s) (xs_st s) b); cbn [with_st xs_node]; assumption.
-    + cbn [with_st xs_node]. assumption.
 Qed.
 
 End MovingHistory.
@@ -1608,7 +1496,7 @@ Proof.
   apply (sinv_run p g U Uids w _ (keys_of_w w (sh :: shs)) B cap HB); [|assumption].
   split; [reflexivity|]. split; [split; [assumption|split; assumption]|].
   exists c0. cbn [s0 xs_node xs_st].
-  apply (xinv_import_start p g U w _ (keys_of_w w (sh :: shs)) c0 n0 pass st1); try assumption.
+  apply (xinv_import_start p g U w _ (keys_of_w w (sh :: shs)) c0 pass st1); try assumption.
   - discriminate.
   - unfold keys_of. rewrite map_map. cbn [fst]. rewrite map_id. assumption.
   - intros e He. unfold keys_of in He. apply in_map_iff in He. destruct He as [a [Ha _]]. subst e. reflexivity.
@@ -1712,25 +1600,6 @@ Proof.
   apply (sinv_correct p g U Uids w _ s' Hs' Hstep' Hr).
 Qed.
 
-(* the premise [xwf] of the theorems above holds for every history in which the node never connects a
-   block twice (and never the blocks of the initial chain again) *)
-Theorem xwf_of_fresh_run : forall p g U w pass sh shs B cap n0 h,
-  (forall b1 b2, In b1 U -> In b2 U -> b_id b1 = b_id b2 -> b1 = b2) -> 0 < B ->
-  wf_chain n0 -> from_g g n0 -> incl n0 U ->
-  xwf_fresh p g U w B cap n0 (xrun repaired p B cap n0 [XImportStart w pass (sh :: shs)]) h ->
-  xwf p g U w B cap (xrun repaired p B cap n0 [XImportStart w pass (sh :: shs)]) h.
-Proof.
-  intros p g U w pass sh shs B cap n0 h Uids HB Hwfn Hgn HnU Hf.
-  destruct (xrun_import_start repaired p B cap n0 w pass sh shs) as [st1 [Hst Hrun]]. rewrite Hrun in *.
-  apply (xwf_of_fresh p g U Uids w _ (keys_of_w w (sh :: shs)) B cap HB h n0 _ n0); try assumption; try apply incl_refl.
-  - reflexivity.
-  - split; [assumption|split; assumption].
-  - cbn [xs_node xs_st]. apply (xinv_import_start p g U w _ (keys_of_w w (sh :: shs)) n0 n0 pass st1); try assumption.
-    + discriminate.
-    + unfold keys_of. rewrite map_map. cbn [fst]. rewrite map_id. assumption.
-    + intros e He. unfold keys_of in He. apply in_map_iff in He. destruct He as [a [Ha _]]. subst e. reflexivity.
-Qed.
-
 (* ---------------------------------------------------------------- between: what a batch can answer *)
 
 (* repaired: a batch commits or is retried; the task is never dropped *)
@@ -1739,8 +1608,69 @@ Lemma batch_never_abandons : forall p B n st w,
 Proof.
   intros p B n st w. unfold import_batch. destruct (status_of st w) as [[|k|]|]; try (split; [discriminate|reflexivity]).
   destruct (memN w (x_dead st)); [split; [discriminate|reflexivity]|].
-  destruct (import_blocks _ _ _ _ _ _ _) as [[cs brs]|e]; [split; [discriminate|reflexivity]|].
-  destruct e; cbn; split; try discriminate; reflexivity.
+  destruct (import_blocks _ _ _ _ _ _ _) as [[cs brs]|e].
+  - destruct (f_import_tipcheck repaired && negb _); split; try discriminate; reflexivity.
+  - destruct e; cbn; split; try discriminate; reflexivity.
+Qed.
+
+(* the rescan loop fails with "retry" or "abandon" only *)
+Lemma import_tx_err : forall p own n h bid acc t e, import_tx p own n h bid acc t = inr e -> e <> IOk.
+Proof.
+  intros p own n h bid [cs brs] t e H. rewrite import_tx_unfold in H.
+  destruct (if t_cb t then Some [] else import_ins own n h (t_ins t) 0%N) as [ins|]; [|inversion H; discriminate].
+  assert (Hb : forall ins outs, import_body p h bid cs brs t ins outs = inr e -> e <> IOk).
+  { intros ins0 outs0 Hb. unfold import_body in Hb. destruct (negb _); [inversion Hb; discriminate|].
+    destruct (apply_ins cs t h ins0) as [cs1|]; [|inversion Hb; discriminate].
+    destruct (apply_outs p cs1 t h bid outs0); inversion Hb; discriminate. }
+  destruct ins; destruct (filter_outs own (t_outs t) 0%N); try discriminate; apply (Hb _ _ H).
+Qed.
+
+Lemma import_txs_err : forall p own n h bid ts acc e, import_txs p own n h bid acc ts = inr e -> e <> IOk.
+Proof.
+  intros p own n h bid ts. induction ts as [|t r IH]; intros acc e H; [discriminate|].
+  cbn [import_txs] in H. destruct (import_tx p own n h bid acc t) as [acc'|e'] eqn:Ht.
+  - apply (IH _ _ H).
+  - inversion H. subst e'. apply (import_tx_err _ _ _ _ _ _ _ _ Ht).
+Qed.
+
+Lemma import_blocks_err : forall p own n k stop bs acc e, import_blocks p own n k stop acc bs = inr e -> e <> IOk.
+Proof.
+  intros p own n k stop bs. induction bs as [|b r IH]; intros acc e H; [discriminate|].
+  cbn [import_blocks] in H. destruct ((k <? b_height b) && (b_height b <=? stop)); [|apply (IH _ _ H)].
+  destruct (import_txs p own n (b_height b) (b_id b) acc (filter (touches own n (b_height b)) (b_txs b))) as [acc'|e'] eqn:Ht.
+  - apply (IH _ _ H).
+  - inversion H. subst e'. apply (import_txs_err _ _ _ _ _ _ _ _ Ht).
+Qed.
+
+(* repaired: a batch that finds the node's block at its upper height different from the handler's synced
+   block of that height (or one of them missing) changes nothing and is retried *)
+Lemma batch_refused_off_chain : forall p B n st w k,
+  status_of st w = Some (WImporting k) ->
+  node_on_synced n (x_w st) (Z.min (k + B) (fst (tip (x_w st)))) = false ->
+  import_batch repaired p B n st w = (st, if memN w (x_dead st) then IOk else IRetry).
+Proof.
+  intros p B n st w k Hs Hchk. unfold import_batch. rewrite Hs. destruct (memN w (x_dead st)); [reflexivity|].
+  rewrite Hchk. destruct (import_blocks _ _ _ _ _ _ _) as [[cs brs]|e] eqn:Hb; [reflexivity|].
+  pose proof (import_blocks_err _ _ _ _ _ _ _ _ Hb) as He. destruct e; [contradiction|reflexivity|reflexivity].
+Qed.
+
+(* repaired, under the invariant: a batch that commits has read blocks of the handler's chain only — the
+   node's chain and the handler's are the same up to the batch's upper height *)
+Lemma batch_ok_on_chain : forall p g U, (forall b1 b2, In b1 U -> In b2 U -> b_id b1 = b_id b2 -> b1 = b2) ->
+  forall w keys B c n st k, ninv g U n -> xinv p g U w keys c st ->
+  status_of st w = Some (WImporting k) ->
+  snd (import_batch repaired p B n st w) = IOk ->
+  let stop := Z.min (k + B) (chain_height c) in
+  stop <= chain_height n /\ upto stop c = upto stop n.
+Proof.
+  intros p g U Uids w keys B c n st k Hninv Hinv Hs Hok stop.
+  assert (Hbest : fst (tip (x_w st)) = chain_height c).
+  { rewrite (xw_eta st), (xi_synced _ _ _ _ _ _ _ Hinv). apply tip_of_synced. apply (xi_wf _ _ _ _ _ _ _ Hinv). }
+  destruct (node_on_synced n (x_w st) stop) eqn:Hchk.
+  - destruct (node_on_synced_upto p g U Uids w keys c n st stop Hninv Hinv Hchk) as [_ [H1 H2]]. split; assumption.
+  - exfalso. unfold stop in Hchk. rewrite <- Hbest in Hchk.
+    rewrite (batch_refused_off_chain p B n st w k Hs Hchk) in Hok. rewrite (xi_dead _ _ _ _ _ _ _ Hinv) in Hok.
+    cbn in Hok. discriminate.
 Qed.
 
 (* ---------------------------------------------------------------- decidable well-formedness (for closed examples) *)
@@ -1755,7 +1685,7 @@ Qed.
 
 Definition ev_ok_b (g : block) (U : list block) (w : N) (s : xsim) (e : xevent) : bool :=
   match e with
-  | XAttach b => in_b b U && wf_chain_b (xs_node s ++ [b]) && negb (matched (x_w (xs_st s)) b)
+  | XAttach b => in_b b U && wf_chain_b (xs_node s ++ [b])
   | XDetach => wf_chain_b (removelast (xs_node s))
   | XProcess b => in_b b U && negb (b_id b =? b_id g)%N
   | XBatch v => (v =? w)%N
@@ -1773,43 +1703,8 @@ Proof.
   intros p g U w B cap. induction h as [|e r IH]; intros s H; [exact I|].
   cbn [xwf_b] in H. apply andb_true_iff in H. destruct H as [He Hr]. split; [|apply IH; assumption].
   destruct e as [b| |b|w0 ps|sh w0|w0 ps shs|v|w0 ps|w0|w0|]; cbn [ev_ok_b ev_ok] in *; try discriminate.
-  - apply andb_true_iff in He. destruct He as [He Hm]. apply andb_true_iff in He. destruct He as [Hu Hw].
-    split; [apply in_b_sound; assumption|]. split; [apply wf_chain_b_sound; assumption|].
-    destruct (matched (x_w (xs_st s)) b); [discriminate|reflexivity].
-  - apply wf_chain_b_sound. assumption.
-  - apply andb_true_iff in He. destruct He as [Hu Hn]. split; [apply in_b_sound; assumption|].
-    intros Heq. subst b. rewrite N.eqb_refl in Hn. discriminate.
-  - apply N.eqb_eq. assumption.
-Qed.
-
-Definition ev_fresh_b (g : block) (U : list block) (w : N) (A : list block) (s : xsim) (e : xevent) : bool :=
-  match e with
-  | XAttach b => in_b b U && wf_chain_b (xs_node s ++ [b]) && negb (existsb (fun x => (b_id x =? b_id b)%N) A)
-  | XDetach => wf_chain_b (removelast (xs_node s))
-  | XProcess b => in_b b U && negb (b_id b =? b_id g)%N
-  | XBatch v => (v =? w)%N
-  | _ => false
-  end.
-
-Fixpoint xwf_fresh_b (p : params) (g : block) (U : list block) (w : N) (B cap : Z) (A : list block) (s : xsim)
-         (h : list xevent) : bool :=
-  match h with
-  | [] => true
-  | e :: r => ev_fresh_b g U w A s e && xwf_fresh_b p g U w B cap (grow A e) (xstep repaired p B cap s e) r
-  end.
-
-Lemma xwf_fresh_b_sound : forall p g U w B cap h A s,
-  xwf_fresh_b p g U w B cap A s h = true -> xwf_fresh p g U w B cap A s h.
-Proof.
-  intros p g U w B cap. induction h as [|e r IH]; intros A s H; [exact I|].
-  cbn [xwf_fresh_b] in H. apply andb_true_iff in H. destruct H as [He Hr]. split; [|apply IH; assumption].
-  destruct e as [b| |b|w0 ps|sh w0|w0 ps shs|v|w0 ps|w0|w0|]; cbn [ev_fresh_b ev_fresh] in *; try discriminate.
-  - apply andb_true_iff in He. destruct He as [He Hm]. apply andb_true_iff in He. destruct He as [Hu Hw].
-    split; [apply in_b_sound; assumption|]. split; [apply wf_chain_b_sound; assumption|].
-    intros Hin. apply negb_true_iff in Hm.
-    assert (Ht : existsb (fun x => (b_id x =? b_id b)%N) A = true).
-    { apply existsb_exists. exists b. split; [assumption|apply N.eqb_refl]. }
-    congruence.
+  - apply andb_true_iff in He. destruct He as [Hu Hw].
+    split; [apply in_b_sound; assumption|apply wf_chain_b_sound; assumption].
   - apply wf_chain_b_sound. assumption.
   - apply andb_true_iff in He. destruct He as [Hu Hn]. split; [apply in_b_sound; assumption|].
     intros Heq. subst b. rewrite N.eqb_refl in Hn. discriminate.
@@ -1824,6 +1719,6 @@ Lemma sinv_importing : forall p g U w keys s k,
 Proof.
   intros p g U w keys s k Uids Hs Hstep Hk.
   pose proof (sinv_in_step p g U Uids w keys s Hs Hstep) as Hinv.
-  rewrite (own_w_kown w keys _ (xi_keys _ _ _ _ _ _ _ _ Hinv)).
+  rewrite (own_w_kown w keys _ (xi_keys _ _ _ _ _ _ _ Hinv)).
   apply (xinv_importing p g U w keys _ _ k Hinv Hk).
 Qed.
